@@ -367,8 +367,4 @@ def replay(ctx, data):
     else:
         print(json.dumps(case, indent=1)[:3000])
         return False
-    for sig, detail, _r in ctx.oracle_fails:
-        print("property fails:", sig, detail)
-    for f, sig in ctx.known_hits:
-        print("property fails (known finding %s):" % f.get("id"), sig)
-    return not ctx.oracle_fails and not ctx.known_hits
+    return G.replay_verdict(ctx)
